@@ -187,49 +187,9 @@ func runC13(c *core.Ctx) {
 			return false, false
 		}), succ, "success return", opt)
 	}
-	// submitBlock block root
-	if fn := c.Fn(pkLedger, "LedgerStoreImp.submitBlock"); fn != nil {
-		gbr := eng.Obj(c, pkLedger, "LedgerStoreImp.GetBlockRootWithPreBlockHashes")
-		g := eng.NamedGuard{Name: "Height==0 ∨ GetBlockRootWithPreBlockHashes(…)==Header.BlockRoot", G: func(cd ir.Cond) (bool, bool) {
-			b, ok := cd.V.(*ssa.BinOp)
-			if !ok {
-				return false, false
-			}
-			if b.Op == token.EQL || b.Op == token.NEQ {
-				if isFieldNamed(b.X, "Height") {
-					if k, okk := ir.ConstInt(b.Y); okk && k == 0 {
-						return true, b.Op == token.EQL
-					}
-				}
-				if (isCallTo(b.X, gbr) && isFieldNamed(b.Y, "BlockRoot")) || (isCallTo(b.Y, gbr) && isFieldNamed(b.X, "BlockRoot")) {
-					return true, b.Op == token.EQL
-				}
-			}
-			return false, false
-		}}
-		var sinks []ir.Sink
-		for _, ci := range ir.Calls(fn, nil) {
-			o := ir.CalleeObj(ci)
-			if o == nil {
-				continue
-			}
-			switch o.Name() {
-			case "NewBatch", "CommitTo", "saveBlockToBlockStore", "saveBlockToStateStore", "saveBlockToEventStore", "setCurrentBlock":
-				sinks = append(sinks, ir.Sink{Instr: ci, Note: o.Name()})
-			}
-		}
-		c.Floor("store operations in submitBlock", len(sinks), 10)
-		eng.Dominates(c, "C13.block-root≺store", fn, g, sinks, "every batch/save/commit operation", nil)
-		// blockRoot argument provenance: (Header.Height, [PrevBlockHash])
-		for _, cl := range ir.CallsTo(fn, gbr) {
-			a := cl.Common().Args
-			okH := isFieldNamed(a[1], "Height")
-			elems := eng.VariadicElems(a[2])
-			okP := len(elems) == 1 && isFieldNamed(elems[0], "PrevBlockHash")
-			c.Decide(okH && okP, "C13.block-root≺store", fn, "blockRoot = GetBlockRootWithPreBlockHashes(Header.Height, [Header.PrevBlockHash])", c.P.Rel(cl.Pos()), "")
-		}
-	}
-	checkSubmitBlockRoot(c, "C13.block-root≺store", false)
+	// submitBlock block root (shared with C08: rules/c13d.go)
+	checkSubmitBlockRoot(c, "C13.block-root≺store", true)
+
 	// block store key pairing
 	checkBlockStorePairs(c)
 }
@@ -716,20 +676,28 @@ func checkVerifyMultiSignature(c *core.Ctx, rule string) {
 	// mask discipline: every store mask[j]=true is dominated (from the inner loop body) by !mask[j] and Verify(keys[j],…)==true
 	var maskStores []ssa.Instruction
 	var maskAlloc ssa.Value
-	for _, b := range fn.Blocks {
-		for _, in := range b.Instrs {
-			st, ok := in.(*ssa.Store)
-			if !ok {
-				continue
-			}
-			ia, ok := st.Addr.(*ssa.IndexAddr)
-			if !ok {
-				continue
-			}
-			if ms, ok := ia.X.(*ssa.MakeSlice); ok {
-				if k, isk := ir.ConstBool(st.Val); isk && k {
-					maskStores = append(maskStores, st)
-					maskAlloc = ms
+	// the key search may sit in a small same-package helper handed keys and mask
+	hosts, releaseHosts := hostsWithHelpers(fn)
+	defer releaseHosts()
+	for _, host := range hosts {
+		for _, b := range host.Blocks {
+			for _, in := range b.Instrs {
+				st, ok := in.(*ssa.Store)
+				if !ok {
+					continue
+				}
+				ia, ok := st.Addr.(*ssa.IndexAddr)
+				if !ok {
+					continue
+				}
+				if ms, ok := ir.Resolve(ia.X).(*ssa.MakeSlice); ok && ms.Parent() == fn {
+					if k, isk := ir.ConstBool(st.Val); isk && k {
+						maskStores = append(maskStores, st)
+						maskAlloc = ms
+						if host != fn {
+							c.Attribute(host, fn)
+						}
+					}
 				}
 			}
 		}
@@ -748,12 +716,13 @@ func checkVerifyMultiSignature(c *core.Ctx, rule string) {
 				return false, false
 			}
 			ia, ok := u.X.(*ssa.IndexAddr)
-			if !ok || ia.X != maskAlloc || ia.Index != jIdx {
+			if !ok || ir.Resolve(ia.X) != maskAlloc || ia.Index != jIdx {
 				return false, false
 			}
 			return true, false
 		}}
-		eng.Dominates(c, rule, fn, notMasked, one, "mask[j] = true", nil)
+		host := msi.Parent()
+		eng.Dominates(c, rule, host, notMasked, one, "mask[j] = true", nil)
 		verified := eng.NamedGuard{Name: "s.Verify(keys[j], data, sig)", G: func(cd ir.Cond) (bool, bool) {
 			cl, _ := ir.CallOf(cd.V)
 			if cl == nil {
@@ -775,7 +744,7 @@ func checkVerifyMultiSignature(c *core.Ctx, rule string) {
 			}
 			return true, true
 		}}
-		eng.Dominates(c, rule, fn, verified, one, "mask[j] = true", nil)
+		eng.Dominates(c, rule, host, verified, one, "mask[j] = true", nil)
 	}
 	// per-signature: the outer loop iteration must set a mask slot (valid flag): every outer iteration executes a mask store
 	outer := eng.FindSliceLoopsByBound(fn, isParam("m"))
